@@ -1,6 +1,135 @@
 /-
-  C14 — property theorems (stub; to be filled in).
+  C14 — the prepared-statement cache is transparent, leak-free, safe in any interleaving.
+  Theorems over the LTS of Model/StmtCache.lean, for ARBITRARY schedules (lists of scheduler choices with the
+  driver's answers); invariants are in Lemmas/StmtCacheInv.lean.
 -/
+import GormModel.Model.StmtCache
+import GormModel.Lemmas.StmtCacheInv
+import GormModel.Gen.LockSections
 namespace Gorm
+open SC
+
+/-- thread `t` runs `n` consecutive sections with answer `a` -/
+def stepsOf (t n : Nat) (a : Ans := .ok) : List Act := List.replicate n (.thr t a)
+
+/-- DEADLOCK FREEDOM.  In every state reachable by any schedule from any program (any number of goroutines, texts,
+    views, transactions, Reset/Close), if some operation has not returned then some goroutine can take a step
+    (pending driver calls are steps: they return).  Waiters wait only for an entry whose preparer is running, and
+    preparers never wait. -/
+theorem C14_deadlock_free (ops : List Op) (nV : Nat) (sched : List Act) :
+    let s := run (init ops nV) sched
+    (∃ t, t < s.nT ∧ isFin s t = false) → ∃ t a, t < s.nT ∧ (act s (.thr t a)).isSome = true := by
+  intro s ⟨t, ht, hf⟩
+  by_cases hen : ∃ a, (act s (.thr t a)).isSome = true
+  · obtain ⟨a, ha⟩ := hen
+    exact ⟨t, a, ht, ha⟩
+  · have hb : ∀ a, act s (.thr t a) = none := by
+      intro a
+      cases hact : act s (.thr t a) with
+      | none => rfl
+      | some s' => exact absurd ⟨a, by simp [hact]⟩ hen
+    obtain ⟨e, hpc, hprep⟩ := blocked_is_waiter s t ht (opPc_reachable ops nV sched) hf hb
+    have he : e < s.nE := (rng_reachable ops nV sched).2 t e hpc
+    obtain ⟨t0, ht0, hown⟩ := own_reachable ops nV sched e he hprep
+    refine ⟨t0, .ok, ht0, ?_⟩
+    -- an owner is always enabled
+    have ht0' : t0 < s.nT := ht0
+    simp only [act, ht0', if_true, tstep]
+    cases hop : (s.threads t0).op with
+    | reset v =>
+      rcases opPc_reachable ops nV sched t0 v (Or.inl hop) with h1 | h1
+      · rw [h1] at hown; simp [owns] at hown
+      · simp only [isFin] at h1; split at h1
+        · rename_i hh; rw [hh] at hown; simp [owns] at hown
+        · cases h1
+    | close v =>
+      rcases opPc_reachable ops nV sched t0 v (Or.inr hop) with h1 | h1
+      · rw [h1] at hown; simp [owns] at hown
+      · simp only [isFin] at h1; split at h1
+        · rename_i hh; rw [hh] at hown; simp [owns] at hown
+        · cases h1
+    | use v q tx =>
+      simp only
+      cases hpc0 : (s.threads t0).pc <;> rw [hpc0] at hown <;> simp [owns] at hown <;> simp [stepUse, hpc0]
+
+/-- AT MOST ONCE (accounting form).  For every map object `m` (= cache generation: `NewPreparedStmtDB` and every
+    `Reset` allocate a fresh one) and every text `q`, after ANY schedule: the number of `ConnPool.PrepareContext`
+    calls issued for `(m, q)` equals the number of entries removed from `m[q]` (failed-prepare delete, ErrBadConn
+    eviction, Transaction entry overwritten by a non-transaction request — the only steps that log a removal)
+    plus one if an entry is cached now.  However many goroutines ask at the same time, a second PrepareContext
+    for the same text and generation needs a removal in between. -/
+theorem C14_at_most_once (ops : List Op) (nV : Nat) (sched : List Act) (m : Nat) (q : Text) :
+    let s := run (init ops nV) sched
+    prepCount s m q = removedCount s m q + (if (s.maps m q).isSome then 1 else 0) ∧
+    prepCount s m q ≤ removedCount s m q + 1 := by
+  intro s
+  have h := acct_reachable ops nV sched m q
+  refine ⟨h, ?_⟩
+  have h' : prepCount s m q = removedCount s m q + (if (s.maps m q).isSome then 1 else 0) := h
+  split at h' <;> omega
+
+/-- non-vacuity: three goroutines asking for the same text at the same time cause exactly one PrepareContext -/
+example : prepCount (run (init [.use 0 0 false, .use 0 0 false, .use 0 0 false])
+    (stepsOf 0 1 ++ stepsOf 1 1 ++ stepsOf 2 1 ++ stepsOf 0 1 ++ stepsOf 1 1 ++ stepsOf 2 1 ++ stepsOf 0 4 ++
+     stepsOf 1 3 ++ stepsOf 2 3 ++ stepsOf 0 1)) 0 0 = 1 := by decide
+
+/-- TIE of the step granularity (regenerated from prepare_stmt.go on every run): while `Mux` is held no driver /
+    database-sql call and no channel operation is executed (closers are only SPAWNED with `go`), so every
+    Lock..Unlock section is one atomic step of the LTS; and the sections are exactly the ones the model has:
+    Close, Reset, the four of `prepare` (RLock lookup, Lock double-check+publish, Lock delete, Lock store) and the
+    four ErrBadConn evictions. -/
+theorem C14_lock_sections_atomic :
+    (Gen.lockSections.all fun s => s.blockingCalls.isEmpty && s.chanOps == 0) = true ∧
+    Gen.lockSections.map (fun s => (s.fn, s.kind)) =
+      [("PreparedStmtDB.Close", "Lock"), ("PreparedStmtDB.Reset", "Lock"),
+       ("PreparedStmtDB.prepare", "RLock"), ("PreparedStmtDB.prepare", "Lock"),
+       ("PreparedStmtDB.prepare", "Lock"), ("PreparedStmtDB.prepare", "Lock"),
+       ("PreparedStmtDB.ExecContext", "Lock"), ("PreparedStmtDB.QueryContext", "Lock"),
+       ("PreparedStmtTX.ExecContext", "Lock"), ("PreparedStmtTX.QueryContext", "Lock")] := by
+  decide
+
+/-! ### findings: concrete schedules on which the full statement fails (kernel-checked) -/
+
+/-- F14b witness 1 (late delete after a FAILED prepare): a transaction prepares text 0; a non-transaction request
+    overwrites the Transaction entry and prepares too; the transaction's PrepareContext fails and its
+    `delete(db.Stmts, query)` removes the OTHER goroutine's entry; that goroutine's statement is stored in an
+    entry no map knows, so neither Reset nor Close ever closes it. -/
+def cexLeakFail : List Op × List Act :=
+  ([.use 0 0 true, .use 0 0 false, .close 0],
+   stepsOf 0 2 ++ stepsOf 1 2 ++ [.thr 0 .err] ++ stepsOf 0 2 ++ stepsOf 1 5 ++ stepsOf 2 1)
+
+/-- F14b witness 2 (late ErrBadConn eviction): goroutines 0 and 1 execute the same cached statement, both get
+    ErrBadConn; 0 evicts; goroutine 2 re-prepares and caches a fresh statement; then 1's eviction deletes THAT entry. -/
+def cexLeakBadConn : List Op × List Act :=
+  ([.use 0 0 false, .use 0 0 false, .use 0 0 false, .close 0],
+   stepsOf 0 6 ++ stepsOf 1 3 ++ [.thr 0 .bad] ++ stepsOf 0 1 ++ [.closeH 0] ++ stepsOf 2 7 ++
+   [.thr 1 .bad] ++ stepsOf 1 1 ++ stepsOf 3 1)
+
+theorem C14_closed_eventually_counterexample :
+    (let s := run (init cexLeakFail.1) cexLeakFail.2
+     quiescentB s = true ∧ result s 1 = some .rows ∧ leakedB s 0 = true ∧ foreignRemovals s = 1) ∧
+    (let s := run (init cexLeakBadConn.1) cexLeakBadConn.2
+     quiescentB s = true ∧ result s 2 = some .rows ∧ leakedB s 1 = true ∧ foreignRemovals s = 1) := by
+  decide
+
+/-- F14a witness (stale session-level struct): view 1 (a `Session(PrepareStmt)` handle) prepares text 0 and Resets;
+    the closers close the statement but the struct behind view 0 still points to the OLD map, so its next
+    request finds the closed statement: "sql: statement is closed" although nothing was closed on view 0. -/
+def cexStale : List Op × List Act :=
+  ([.use 1 0 false, .reset 1, .use 0 0 false],
+   stepsOf 0 7 ++ stepsOf 1 1 ++ [.closeE 0] ++ stepsOf 2 3)
+
+/-- F14c witness (Reset closes a statement another goroutine already holds, single struct): goroutine 0 got its
+    copy of the Stmt (`ready`), Reset + closer run, then 0 executes a closed statement. -/
+def cexHeld : List Op × List Act :=
+  ([.use 0 0 false, .reset 0],
+   stepsOf 0 5 ++ stepsOf 1 1 ++ [.closeE 0] ++ stepsOf 0 1)
+
+theorem C14_transparent_counterexample :
+    (let s := run (init cexStale.1 2) cexStale.2
+     result s 0 = some .rows ∧ result s 2 = some .stmtClosed ∧ s.views 0 = some 0) ∧
+    (let s := run (init cexHeld.1) cexHeld.2
+     result s 0 = some .stmtClosed ∧ s.views 0 = some 1) := by
+  decide
 
 end Gorm
